@@ -148,6 +148,18 @@ func terminal(fin []byte) bool {
 	return true
 }
 
+// ssl3AppendRisk: under SSLv3 CBC a length-field change that appends whole blocks (fewer than 256 bytes) to a
+// genuine body is accepted with probability 1/256 (the last byte of the garbage block is taken as padding
+// length, padding content and length are not authenticated): not predictable by the symbolic model.
+func ssl3AppendRisk(vers uint16, kind, bs int, rec []byte, off, mask int) bool {
+	if vers != 0x0300 || kind != 1 || off != 4 || len(rec) < 5 {
+		return false
+	}
+	claim := int(rec[3])<<8 | int(rec[4])
+	c2 := claim ^ mask
+	return c2 > claim && c2%bs == 0
+}
+
 var finals = [][]byte{{1, 0}, {1, 0}, {1, 0}, {}, {1, 100}, {2, 40}, {2, 0}, {3, 51}, {1}, {1, 0, 0}, {1, 90}, {2, 20}}
 
 func tamper(x input) []byte {
@@ -283,6 +295,9 @@ func gen(r *hv.Rng, i int, tier string) (string, hv.Val) {
 			op, name = []int{1, pick(), off, r.Range(1, 255)}, []string{"flip-type", "flip-vers", "flip-vers", "flip-len", "flip-len"}[off]
 			if off >= 3 && r.Bool() {
 				op[3] = 1 << uint(r.Intn(8))
+			}
+			if op[1] >= 0 && op[1] < n && ssl3AppendRisk(sv.vers, kind, bs, recs[op[1]], off, op[3]) {
+				op[3] = 1
 			}
 		case 4:
 			op, name = []int{2, pick(), pick()}, "swap"
@@ -455,6 +470,9 @@ func genMatrix(mc matrixCase, i int) (string, hv.Val) {
 		x.ops = [][]int{{1, t, 3, 1 << uint(i%7)}}
 	case 5:
 		x.ops = [][]int{{1, t, 4, 16}}
+		if ck, _, _, _, _, _, _ := bfe_tls.VerifC42Params(mc.sv.id, mc.sv.vers); ssl3AppendRisk(mc.sv.vers, ck, bsz, recs[t], 4, 16) {
+			x.ops = [][]int{{1, t, 4, 2}}
+		}
 	case 6:
 		x.ops = [][]int{{1, t, 4, 1}}
 	case 7:
